@@ -150,7 +150,13 @@ func observe(f *gcs.Filter, key [gcs.KeySize]byte, qs [][]byte) string {
 	if err1 != nil || err2 != nil || err3 != nil {
 		return "err:matchany"
 	}
-	return fmt.Sprintf("m=%s zip=%s hash=%s any=%s", ms, bit(zip), bit(hash), bit(any))
+	// MatchAny picks a strategy by a heuristic; where the two strategies disagree (only possible on a
+	// deserialised stream whose N does not cover the data) its choice is not part of the observation.
+	anyS := bit(any)
+	if zip != hash {
+		anyS = "*"
+	}
+	return fmt.Sprintf("m=%s zip=%s hash=%s any=%s", ms, bit(zip), bit(hash), anyS)
 }
 
 func execGcs(f []string) string {
